@@ -13,6 +13,8 @@ from vlib.ops import Engine, engine_known, flush_excluded
 
 ID = "C07"
 LEVEL = "exploration"
+TECHNIQUE = 'property-based testing: model-checked copy step, then independence under generated mutation histories on either side'
+LEVEL_TEXT = 'exploration: generated (source, target, copy operation, follow-up history) cases; faithfulness via the independent model, source-unchanged and two-way independence by comparing full observations after every later step'
 RULE = (
     "case = (data flavour in {str with explicit ids, objects keyed by a calc_data_id callback, objects keyed by a "
     "subclass override}, plain/typed, source tree with clones, target tree, one copy operation out of {Tree.copy(), "
